@@ -441,6 +441,35 @@ def run(prog, tier) -> Result:
                 cr.run("R11.4", GET, f"updates for two periods (validity {kind}), date in the {read} one, {pair[0]}->{pair[1]}",
                        two_setup(kind, "next", read, pair), judge_rate)
 
+    # ------------------------------------------------------------------ look-ups between updates: an answer given
+    # earlier does not outlive the update of an entry it was derived from
+    def lookup_between_setup(kind, pair, second):
+        def setup(c):
+            s = Scenario(c, prog)
+            v1, p1 = s.validity(kind, "p")
+            s.update(v1, p1, ["ca", "cb"])
+            eff = s.date_in(p1)
+            with frame(s.I, prog):
+                try:
+                    for x, y in (pair, (pair[1], pair[0]), ("base", pair[1]), (pair[0], "base")):
+                        if x != y:
+                            s.I.call_function(GET, [s.conv, s.cur[x], s.cur[y], eff], {})
+                except AbsRaise:
+                    raise Infeasible        # (the first answers themselves are R11.3's subject)
+            v2, p2 = s.validity(kind, "p")
+            s.update(v2, p2, [second])
+            s.eff = eff
+            s.want_pair = pair
+            s.explicit_date = True
+            s.dflt_calls.clear()
+            return [s.conv, s.cur[pair[0]], s.cur[pair[1]], eff], {}
+        return setup
+    for kind in ("None", "year"):
+        for pair in (("ca", "cb"), ("cb", "ca"), ("base", "ca"), ("ca", "base")):
+            for second in ("ca", "cb"):
+                cr.run("R11.9", GET, f"look-ups, then an update of {second} (validity {kind}), then {pair[0]}->{pair[1]} again",
+                       lookup_between_setup(kind, pair, second), judge_rate)
+
     # ------------------------------------------------------------------ thorough tier: longer histories, every pair everywhere
     if tier == "thorough":
         def three_setup(kind, read, pair):
@@ -581,7 +610,10 @@ def run(prog, tier) -> Result:
     n = 0
     for f in fields:
         n += len(check_ownership(res, "R11.8", writes, f,
-                                 {"MoneyConverter.__init__": {"*"}, "MoneyConverter.update": {"*"}}, cg))
+                                 {"MoneyConverter.__init__": {"*"}, "MoneyConverter.update": {"*"},
+                                  # the readers may keep memo fields of their own: whether an answer given earlier
+                                  # survives an update it depends on is decided by the look-up / update histories
+                                  "MoneyConverter.get_rate": {"*"}, "MoneyConverter.__call__": {"*"}}, cg))
     if n < 2:
         raise AnalysisError(f"R11.8: {n} writes of the converter state found (at least 2 expected)")
 
@@ -592,5 +624,5 @@ def run(prog, tier) -> Result:
     res.require("R11.5", 30)
     res.require("R11.6", 9)
     res.require("R11.7", 10)
-    res.require("R11.9", 8)
+    res.require("R11.9", 24)
     return res
